@@ -19,7 +19,7 @@ HERE = os.path.dirname(os.path.abspath(__file__))
 VERIF = os.path.dirname(HERE)
 REPO = '/repo'
 PY = '/venv/bin/python'
-ALL = ['C01', 'C02', 'C03', 'C04', 'C05', 'C06', 'C07', 'C08', 'C09', 'C10', 'C12', 'C13', 'C14', 'C15', 'C16', 'C17', 'C18', 'C20']
+ALL = ['C01', 'C02', 'C03', 'C04', 'C05', 'C06', 'C07', 'C08', 'C09', 'C10', 'C11', 'C12', 'C13', 'C14', 'C15', 'C16', 'C17', 'C18', 'C19', 'C20']
 BASELINE = 46
 
 
@@ -85,6 +85,25 @@ def detect_one(i):
         shutil.rmtree(root, ignore_errors=True)
 
 
+def job_seed(arg):
+    """thorough-tier liveness: does the check of property `prop` still report seeded change `i` (applied to a scratch copy of the current tree)"""
+    i, prop, repo = arg
+    sd = os.path.join(VERIF, 'seeded')
+    root = tempfile.mkdtemp(prefix='kvlive_')
+    try:
+        shutil.copytree(os.path.join(repo, 'klepto'), os.path.join(root, 'klepto'), ignore=shutil.ignore_patterns('tests', '__pycache__'))
+        rc, o = sh('patch -p1 -s < %s' % os.path.join(sd, i, 'patch.diff'), cwd=root)
+        if rc:
+            return i, None, 'patch does not apply to this tree'
+        rc, o = sh('python3 %s/check.py %s --tier quick --repo %s' % (VERIF, prop, root), cwd=VERIF,
+                   env={'KV_OUTROOT': os.path.join(root, '_out'), 'KV_NO_LIVENESS': '1'})
+        if rc == 1 and 'VIOLATION property=%s' % prop in o:
+            return i, True, ','.join(sorted(set(re.findall(r'^RULE (\S+) FAILED', o, re.M))))
+        return i, False, 'exit %d' % rc
+    finally:
+        shutil.rmtree(root, ignore_errors=True)
+
+
 def detect(ids):
     from concurrent.futures import ProcessPoolExecutor
     sd = os.path.join(VERIF, 'seeded')
@@ -109,6 +128,8 @@ def main():
             needs = str(meta.get('needs_to_manifest', meta.get('summary', '')))[:220].replace('|', '/').replace('\n', ' ')
             lines.append('| %s | %s | %s | %s | %s |' % (i, target, verdict, '; '.join('%s: %s' % kv for kv in sorted(hit.items())) or '-', needs))
         open(os.path.join(VERIF, 'seeded', 'RESULTS.md'), 'w').write('\n'.join(lines) + '\n')
+        det = dict((i, dict((p, v[len('VIOLATION '):]) for p, v in res.items() if v.startswith('VIOLATION'))) for i, res in sorted(t.items()))
+        json.dump(det, open(os.path.join(VERIF, 'seeded', 'detected.json'), 'w'), indent=1, sort_keys=True)
         print('\n'.join(lines[:8]))
     elif len(sys.argv) >= 2 and sys.argv[1] == 'detect':
         t = detect(sys.argv[2:])
